@@ -191,6 +191,10 @@ func (g *gen) noneTx() *types.Transaction {
 func (g *gen) gatedTx(name string) *types.Transaction {
 	payload := make([]byte, 1+g.r.Intn(12))
 	g.r.Read(payload)
+	if g.r.Intn(4) == 0 {
+		payload = append(append([]byte(nil), PanicPayload...), payload...) // the dapp panics inside Exec
+		lib.Class("tx/gated_dapp_panics_in_exec")
+	}
 	from := g.sender()
 	for !g.rich[from] {
 		from = g.sender()
